@@ -32,6 +32,7 @@ def run(ctx: Context) -> None:
     ctx.rule(r2_call_discipline, v)
     ctx.rule(r3_formula)
     ctx.rule(r4_checkpoint_on_every_exit, v, "R4")
+    ctx.rule(r5_precision_plumbing)
 
 
 def _is_precision_test(v: CalibrateView, n) -> bool | None:
@@ -195,7 +196,9 @@ def r4_checkpoint_on_every_exit(ctx: Context, v: CalibrateView, rule: str) -> No
     """Every path from a state mutation of the batch to the next iteration / any exit passes create_checkpoint."""
     g, head = v.g, v.head
     cps = v.nodes(v.checkpoint)
-    ctx.floor(rule, "create_checkpoint call in calibrate", len(cps), 1)
+    if not cps:
+        ctx.fail(f"{rule}.every-exit", "Calibrator.calibrate:checkpoint-after-mutation", "calibrate() never calls create_checkpoint: with a saving folder set nothing reaches the disk", v.cal, v.cal.node)
+        return
     # argument: the configured folder
     for c in v.checkpoint:
         ok = len(c.args) == 1 and is_self_attr(c.args[0], v.sn, "saving_folder")
@@ -232,3 +235,37 @@ def r4_checkpoint_on_every_exit(ctx: Context, v: CalibrateView, rule: str) -> No
                 extra.append(t)
             # a checkpoint guarded by something else is fine only if another one covers the remaining paths: covered by the path query above
             ctx.notes.setdefault("checkpoint_guards", []).append([src(t.ast) for t in extra])
+
+
+def r5_precision_plumbing(ctx: Context) -> None:
+    """convergence_precision = p is kept as p for every p >= 0 (0 included), None stays None, p < 0 is rejected."""
+    from fractions import Fraction
+
+    from ..absint import Evaluator, Licence, Obj
+    prog = ctx.prog
+    init = ctx.func("black_it.calibrator:Calibrator.__init__")
+    stores = [(s, val) for f, s, val in prog.attr_stores(prog.find_class("Calibrator"), inherited=False).get("convergence_precision", []) if f is init]
+    ctx.check(len(stores) == 1, "R5.precision-kept", "Calibrator.__init__:convergence_precision-store", "the precision is stored once by the constructor", f"{len(stores)} stores", init, init.node)
+    if len(stores) != 1:
+        return
+    rows = []
+    for p in (None, 0, 1, 12, -1):
+        obj = Obj("Calibrator", {})
+        ev = Evaluator(prog, init)
+        try:
+            env = {init.self_name: obj, "convergence_precision": p}
+            try:
+                got = ("value", ev._eval(stores[0][1], env))
+            except Exception as exc:  # a raise inside the abstract evaluation
+                if exc.__class__.__name__ == "_Raise":
+                    got = ("raise", exc.name)
+                else:
+                    raise
+        except Licence as exc:
+            raise AnalysisError(f"licence check failed for the precision plumbing: {exc}") from exc
+        want = ("raise", "ValueError") if p is not None and p < 0 else ("value", p)
+        rows.append({"given": p, "stored": got, "expected": want})
+        cls = "None" if p is None else "p=0" if p == 0 else "p>0" if p > 0 else "p<0"
+        ctx.check(got == want, "R5.precision-kept", f"Calibrator.__init__:convergence_precision:{cls}:{p}", f"convergence_precision={p} -> {want}",
+                  f"convergence_precision={p} is stored as {got}, expected {want}: " + ("precision 0 is a legal value (stop when the best loss rounds to 0 at 0 decimals) but is treated as 'no check'" if p == 0 else ""), init, stores[0][0])
+    ctx.tables["C14.R5.precision"] = {"rows": rows, "exhaustive": True}
